@@ -127,6 +127,9 @@ def signature(c):
     if c.spec.startswith("next="):
         d = _diff(post, c.spec)
         if d:
+            arch = c.cls.split("/")[0]
+            if d == "c" and "/addsub_" in c.cls and "_op1_S1_" in c.cls:
+                return f"C03/{arch}/subs/c"          # one defect, one signature (all three operand forms, both widths)
             return f"C03/{c.cls}/{d}"
     d = _diff(post, c.model) if c.model.startswith("next=") else "model"
     return f"C03/{c.cls}/model-{d}"
